@@ -6,6 +6,7 @@ Helper lemmas are in Proofs/C09*.  Every theorem is about Model/C09, whose compa
 arithmetic and permutation matrix are regenerated from /repo (Gen/C09).
 -/
 import CfVerif.Proofs.C09Match
+import CfVerif.Proofs.C09Link
 namespace CfVerif.C09
 open CfVerif
 
@@ -31,6 +32,34 @@ theorem gen_ippe_wrapping :
     "Q_t[i] = np.array((-Q_cf[i][0], -Q_cf[i][1]))" ∈ Gen.C09.cfToIppeAssigns ∧
     Gen.C09.ippeToCfCalls = ["IppeCf._rotate_rot_mat_to_cf(solutions['R1'])", "IppeCf._rotate_rot_mat_to_cf(solutions['R2'])",
       "IppeCf._rotate_vector_to_cf(solutions['t1'])", "IppeCf._rotate_vector_to_cf(solutions['t2'])"] := by decide
+
+theorem gen_link_loop :
+    Gen.C09.linkWhileBody = ["buckets: dict[int, list[Pose]] = {}", "for bs_poses_in_sample in bs_poses_ref_cfs:",
+      "for bs_id, poses in buckets.items():", "to_find = all_bs - bs_poses.keys()", "if len(to_find) == 0:",
+      "if len(to_find) == remaining:", "remaining = len(to_find)"] ∧
+    Gen.C09.linkDoneBody = ["break"] ∧
+    Gen.C09.linkStuckBody = ["raise LhException('Can not link positions between all base stations')"] ∧
+    Gen.C09.linkRaises = ["raise LhException('Can not link positions between all base stations')"] ∧
+    Gen.C09.linkCompares = ["remaining > 0", "len(known) > 0", "bs_id not in buckets", "len(to_find) == 0", "len(to_find) == remaining"] ∧
+    Gen.C09.linkFors = ["for initial_est_bs_poses in bs_poses_ref_cfs", "for bs_poses_in_sample in bs_poses_ref_cfs",
+      "for bs_id in unknown", "for (bs_id, poses) in buckets.items()"] := by decide
+theorem gen_link_exprs :
+    (∀ e ∈ ["to_find = all_bs - bs_poses.keys()", "remaining = len(to_find)",
+        "unknown = to_find.intersection(bs_poses_in_sample.keys())",
+        "known = set(bs_poses.keys()).intersection(bs_poses_in_sample.keys())", "known_bs = list(known)[0]",
+        "known_global = bs_poses[known_bs]", "known_cf = bs_poses_in_sample[known_bs]",
+        "unknown_cf = bs_poses_in_sample[bs_id]",
+        "bs_pose = cls._map_pose_to_ref_frame(known_global, known_cf, unknown_cf)",
+        "bs_poses[bs_id] = cls._avarage_poses(poses)"], e ∈ Gen.C09.linkAssigns) := by decide
+theorem gen_estimate :
+    Gen.C09.estimateCompares = ["len(bs_pose_ref_cfs) > 0", "reference_bs_pose is None"] ∧
+    Gen.C09.estimateRaises = ["raise LhException('Too little data, no reference')"] ∧
+    Gen.C09.estimateFors = ["for bs_pose_ref_cfs in bs_poses_ref_cfs"] ∧
+    "bs_id, reference_bs_pose = list(bs_pose_ref_cfs.items())[0]" ∈ Gen.C09.estimateAssigns ∧
+    "cf_poses = cls._estimate_cf_poses(bs_poses_ref_cfs, bs_poses)" ∈ Gen.C09.estimateAssigns ∧
+    Gen.C09.cfPosesFors = ["for est_ref_cf in bs_poses_ref_cfs", "for (bs_id, pose_cf) in est_ref_cf.items()"] ∧
+    Gen.C09.cfPosesAssigns = ["poses = []", "pose_global = bs_poses[bs_id]", "est_ref_global = cls._map_cf_pos_to_cf_pos(pose_global, pose_cf)"] ∧
+    Gen.C09.cfPosesCalls = ["poses.append(est_ref_global)", "cf_poses.append(cls._avarage_poses(poses))"] := by decide
 
 /-! ## T1 — sample matcher -/
 
@@ -93,6 +122,120 @@ theorem matcher_window_int (maxDiff : Int) (h : 0 ≤ maxDiff) :
   · intro t; omega
   · intro ts cur; omega
 
+/-! ## T2 — linking of base stations through shared samples -/
+
+section T2
+variable {P : Type}
+
+/-- The loop conditions of `_estimate_remaining_bs_poses` as the model uses them. -/
+theorem linking_conditions (n r : Nat) :
+    (Gen.C09.loopCond r = true ↔ r > 0) ∧ (Gen.C09.knownCond n = true ↔ n > 0) ∧
+    (Gen.C09.doneCond n = true ↔ n = 0) ∧ (Gen.C09.stuckCond n r = true ↔ n = r) := by
+  simp [Gen.C09.loopCond, Gen.C09.knownCond, Gen.C09.doneCond, Gen.C09.stuckCond]
+
+/-- **The linking loop terminates with a complete answer or raises — never a partial answer.**
+For every co-visibility structure `refCfs` (one dict of per-sample poses per sample), every initial `bs_poses`,
+every pose arithmetic `ops` and every way `list(known)[0]` may choose among the known stations (`pick`):
+`_estimate_remaining_bs_poses` either returns poses for ALL stations seen in any sample (plus the initial ones, and
+nothing else), every one of them linked to an initially known station through shared samples; or it raises
+`LhException('Can not link ...')`, and then some station really is not linked.  It never runs out of the model's
+loop bound (termination), never hits a KeyError and never returns with a station missing. -/
+theorem linking_outcome (ops : PoseOps P) (pick : Nat → Nat → List Nat → Nat) (hp : ∀ r i, PickValid (pick r i))
+    (refCfs : List (Dict P)) (bsPoses : Dict P) :
+    (∃ poses, estimateRemaining ops pick refCfs bsPoses = .ok poses ∧
+        (∀ b, b ∈ poses.keys ↔ b ∈ bsPoses.keys ∨ b ∈ allBs refCfs) ∧
+        (∀ b ∈ allBs refCfs, LinkedFrom (keySets refCfs) bsPoses.keys b)) ∨
+    (estimateRemaining ops pick refCfs bsPoses = .error .cannotLink ∧
+        ∃ b ∈ allBs refCfs, ¬ LinkedFrom (keySets refCfs) bsPoses.keys b) := by
+  have h := estimateRemaining_outcome ops pick hp refCfs bsPoses
+  generalize estimateRemaining ops pick refCfs bsPoses = res at h
+  cases h with
+  | ok poses hall hroots hlinked =>
+    refine Or.inl ⟨poses, rfl, ?_, fun b hb => hlinked b (hall b hb)⟩
+    intro b
+    constructor
+    · intro hb
+      obtain ⟨r, hr, hl⟩ := hlinked b hb
+      rcases linked_mem _ _ _ hl with rfl | ⟨s, hs, hbs⟩
+      · exact Or.inl hr
+      · obtain ⟨d, hd, rfl⟩ := List.mem_map.mp hs
+        exact Or.inr ((mem_allBs refCfs b).mpr ⟨d, hd, hbs⟩)
+    · rintro (h | h)
+      · exact hroots b h
+      · exact hall b h
+  | cannotLink b hb hnot => exact Or.inr ⟨rfl, b, hb, hnot⟩
+
+/-- A pose for every station **iff** every station is linked to an initially known one. -/
+theorem linking_iff (ops : PoseOps P) (pick : Nat → Nat → List Nat → Nat) (hp : ∀ r i, PickValid (pick r i))
+    (refCfs : List (Dict P)) (bsPoses : Dict P) :
+    (∃ poses, estimateRemaining ops pick refCfs bsPoses = .ok poses) ↔
+      ∀ b ∈ allBs refCfs, LinkedFrom (keySets refCfs) bsPoses.keys b := by
+  rcases linking_outcome ops pick hp refCfs bsPoses with ⟨poses, h, _, hl⟩ | ⟨h, b, hb, hnot⟩
+  · exact ⟨fun _ => hl, fun _ => ⟨poses, h⟩⟩
+  · constructor
+    · rintro ⟨poses, hp'⟩; rw [h] at hp'; cases hp'
+    · intro hall; exact absurd (hall b hb) hnot
+
+/-- Systems that cannot be linked are rejected with the error, whatever the numerics compute. -/
+theorem unlinked_rejected (ops : PoseOps P) (pick : Nat → Nat → List Nat → Nat) (hp : ∀ r i, PickValid (pick r i))
+    (refCfs : List (Dict P)) (bsPoses : Dict P)
+    (h : ¬ ∀ b ∈ allBs refCfs, LinkedFrom (keySets refCfs) bsPoses.keys b) :
+    estimateRemaining ops pick refCfs bsPoses = .error .cannotLink := by
+  rcases linking_outcome ops pick hp refCfs bsPoses with ⟨_, _, _, hl⟩ | ⟨h', _⟩
+  · exact absurd hl h
+  · exact h'
+
+/-- `estimate` (from the per-sample poses on), every sample seen by at least one station pair (no empty dict):
+the reference is the first station of the first sample; if every station is linked to it the result has a pose for
+exactly the stations seen and one CF pose per sample; otherwise `estimate` raises the linking error.  With no
+sample at all it raises 'no reference'. -/
+theorem estimate_outcome (ops : PoseOps P) (pick : Nat → Nat → List Nat → Nat) (hp : ∀ r i, PickValid (pick r i))
+    (refCfs : List (Dict P)) (hne : ∀ s ∈ refCfs, s ≠ []) :
+    (refCfs = [] ∧ estimate ops pick refCfs = .error .noReference) ∨
+    ∃ ref p rest tail, refCfs = ((ref, p) :: rest) :: tail ∧
+      ((∀ b ∈ allBs refCfs, Linked (keySets refCfs) ref b) →
+        ∃ bs cfs, estimate ops pick refCfs = .ok (bs, cfs) ∧ (∀ b, b ∈ bs.keys ↔ b ∈ allBs refCfs) ∧
+          cfs.length = refCfs.length) ∧
+      ((¬ ∀ b ∈ allBs refCfs, Linked (keySets refCfs) ref b) → estimate ops pick refCfs = .error .cannotLink) := by
+  cases refCfs with
+  | nil => exact Or.inl ⟨rfl, rfl⟩
+  | cons s tail =>
+    cases s with
+    | nil => exact absurd rfl (hne [] List.mem_cons_self)
+    | cons kv rest =>
+      obtain ⟨ref, p⟩ := kv
+      refine Or.inr ⟨ref, p, rest, tail, rfl, ?_, ?_⟩
+      · intro hall
+        have hlf : ∀ b ∈ allBs (((ref, p) :: rest) :: tail), LinkedFrom (keySets (((ref, p) :: rest) :: tail)) (Dict.keys [(ref, p)]) b :=
+          fun b hb => ⟨ref, by simp [Dict.keys], hall b hb⟩
+        obtain ⟨poses, hposes⟩ := (linking_iff ops pick hp _ [(ref, p)]).mpr hlf
+        rcases linking_outcome ops pick hp (((ref, p) :: rest) :: tail) [(ref, p)] with ⟨poses', h', hkeys, _⟩ | ⟨h', _⟩
+        · rw [hposes] at h'; cases h'
+          have hrefall : ref ∈ allBs (((ref, p) :: rest) :: tail) :=
+            (mem_allBs _ _).mpr ⟨_, List.mem_cons_self, by simp [Dict.keys]⟩
+          have hkeys' : ∀ b, b ∈ poses.keys ↔ b ∈ allBs (((ref, p) :: rest) :: tail) := by
+            intro b; rw [hkeys]
+            constructor
+            · rintro (h | h)
+              · simp only [Dict.keys, List.map_cons, List.map_nil, List.mem_singleton] at h; subst h; exact hrefall
+              · exact h
+            · exact Or.inr
+          obtain ⟨cfs, hcfs, hlen⟩ := estimateCfPoses_ok ops poses (((ref, p) :: rest) :: tail)
+            (fun s hs b hb => (hkeys' b).mpr ((mem_allBs _ _).mpr ⟨s, hs, hb⟩)) hne
+          exact ⟨poses, cfs, by simp only [estimate, findReference, hposes, hcfs], hkeys', hlen⟩
+        · rw [hposes] at h'; cases h'
+      · intro hnot
+        have : ¬ ∀ b ∈ allBs (((ref, p) :: rest) :: tail), LinkedFrom (keySets (((ref, p) :: rest) :: tail)) (Dict.keys [(ref, p)]) b := by
+          intro hlf; apply hnot
+          intro b hb
+          obtain ⟨r, hr, hl⟩ := hlf b hb
+          simp only [Dict.keys, List.map_cons, List.map_nil, List.mem_singleton] at hr
+          subst hr; exact hl
+        have := unlinked_rejected ops pick hp _ [(ref, p)] this
+        simp only [estimate, findReference, this]
+
+end T2
+
 /-! ## T5 — IPPE <-> CF axis permutations -/
 
 /-- Both permutation matrices are proper rotations (orthogonal, determinant +1) and mutual inverses. -/
@@ -130,5 +273,22 @@ example : Segmentation (20 : Int) [⟨0, 1, 7⟩, ⟨5, 2, 8⟩, ⟨20, 1, 9⟩,
     (.cons ⟨21, 3, 1⟩ [] [] [] (by decide) (by decide) .nil)
 example : matchSamples ([⟨0, 1, 7⟩, ⟨5, 2, 8⟩, ⟨20, 1, 9⟩, ⟨21, 3, 1⟩] : List (Meas Int Nat)) 20 2 =
     [{ ts := 0, angles := [(1, 9), (2, 8)] }] := by decide
+
+/-- a chain 7 - 1 - 5 - 0 (the estimator test's structure) is linked; with the middle sample missing it is not -/
+example : ∀ b ∈ allBs ([[(7, ()), (1, ())], [(1, ()), (5, ())], [(5, ()), (0, ())]] : List (Dict Unit)),
+    Linked (keySets ([[(7, ()), (1, ())], [(1, ()), (5, ())], [(5, ()), (0, ())]] : List (Dict Unit))) 7 b := by
+  have l7 : Linked [[7, 1], [1, 5], [5, 0]] 7 7 := .ref
+  have l1 : Linked [[7, 1], [1, 5], [5, 0]] 7 1 := .step l7 (s := [7, 1]) (by decide) (by decide) (by decide)
+  have l5 : Linked [[7, 1], [1, 5], [5, 0]] 7 5 := .step l1 (s := [1, 5]) (by decide) (by decide) (by decide)
+  have l0 : Linked [[7, 1], [1, 5], [5, 0]] 7 0 := .step l5 (s := [5, 0]) (by decide) (by decide) (by decide)
+  intro b hb
+  have : b = 7 ∨ b = 1 ∨ b = 5 ∨ b = 0 := by simpa [allBs, dedup, Dict.keys] using hb
+  rcases this with rfl | rfl | rfl | rfl <;> assumption
+example : estimate (P := Nat) ⟨fun a _ c => a + c, fun a _ => a, fun l => l.length⟩ (fun _ _ l => l.headD 0)
+    [[(7, 1), (1, 2)], [(5, 3), (0, 4)]] = .error .cannotLink := by rfl
+example : PickValid (fun l => l.headD 0) := by
+  intro l hl; cases l with
+  | nil => exact absurd rfl hl
+  | cons a r => simp
 
 end CfVerif.C09
